@@ -400,15 +400,24 @@ fn elem_variants(e: &Rx, ops: &[Rx], out: &mut Vec<Rx>) {
             seq_variants(x, ops, &mut sub);
             out.extend(sub.into_iter().map(|s| Rx::Opt(Box::new(s))));
         }
-        Rx::Star(x) => {
+        Rx::Star(x) | Rx::Plus(x) => {
             let mut sub = vec![];
             elem_variants(x, ops, &mut sub);
-            out.extend(sub.into_iter().map(|s| Rx::Star(Box::new(s))));
-        }
-        Rx::Plus(x) => {
-            let mut sub = vec![];
-            elem_variants(x, ops, &mut sub);
-            out.extend(sub.into_iter().map(|s| Rx::Plus(Box::new(s))));
+            if !matches!(x.as_ref(), Rx::Paren(_)) {
+                // `B*` -> `(op B)*` and `(B op)*`: operators at the start and end of a loop body
+                for op in ops {
+                    sub.push(par(cat(vec![op.clone(), x.as_ref().clone()])));
+                    sub.push(par(cat(vec![x.as_ref().clone(), op.clone()])));
+                }
+            }
+            let star = matches!(e, Rx::Star(_));
+            out.extend(sub.into_iter().map(|s| {
+                if star {
+                    Rx::Star(Box::new(s))
+                } else {
+                    Rx::Plus(Box::new(s))
+                }
+            }));
         }
         _ => {}
     }
@@ -794,11 +803,14 @@ pub fn choice_tail_family() -> Vec<Grammar> {
     let mut out = vec![];
     for f in &firsts {
         for l in &lasts {
-            for ctx in 0..3 {
+            for ctx in 0..4 {
                 let choice = par(cho(vec![f.clone(), l.clone()]));
                 let s = match ctx {
                     0 => rf(1),
                     1 => cat(vec![rf(1), tok(2)]),
+                    // the token that starts the first alternative may also follow the rule: the nullable last
+                    // alternative is then entered and matches nothing
+                    2 => cat(vec![rf(1), tok(1)]),
                     _ => star(rf(1)),
                 };
                 let mut rules = vec![("s", false, Some(s)), ("x", false, Some(cat(vec![tok(0), choice])))];
@@ -812,4 +824,25 @@ pub fn choice_tail_family() -> Vec<Grammar> {
         }
     }
     out
+}
+
+/// REC: recursive rules whose loops / options never end a sentence (a terminator follows), so that input
+/// truncated inside the loop reaches the end of input in the middle of a repetition of a recursive rule.
+pub fn rec_family() -> Vec<Grammar> {
+    let x = || rf(1);
+    vec![
+        grammar(2, vec![("s", false, Some(x())), ("x", false, Some(cat(vec![tok(0), star(x()), tok(1)])))]),
+        grammar(3, vec![("s", false, Some(cat(vec![x(), tok(2)]))), ("x", false, Some(cat(vec![tok(0), star(x()), tok(1)])))]),
+        grammar(2, vec![("s", false, Some(x())), ("x", false, Some(cat(vec![tok(0), opt(x()), tok(1)])))]),
+        grammar(3, vec![("s", false, Some(x())), ("x", false, Some(alt(vec![cat(vec![tok(0), plus(x()), tok(1)]), tok(2)])))]),
+        grammar(3, vec![("s", false, Some(star(par(cat(vec![x(), tok(2)]))))), ("x", false, Some(cat(vec![tok(0), star(x()), tok(1)])))]),
+        grammar(
+            3,
+            vec![
+                ("s", false, Some(cat(vec![star(par(cat(vec![x(), tok(2)]))), tok(1)]))),
+                ("x", false, Some(cat(vec![tok(0), star(rf(2)), tok(1)]))),
+                ("y", false, Some(alt(vec![tok(2), x()]))),
+            ],
+        ),
+    ]
 }
